@@ -578,7 +578,8 @@ def completely_flatten(array):
     elif isinstance(array, recordtypes):
         out = []
         for i in range(array.numfields):
-            out.extend(completely_flatten(array.field(i)))
+            # a field may hold more items than there are records
+            out.extend(completely_flatten(array.field(i)[: len(array)]))
         return tuple(out)
 
     elif isinstance(array, ak.layout.NumpyArray):
